@@ -89,6 +89,10 @@ def encodeBody (errors : String) (s : List Nat) : List Nat :=
 /-- the bytes hashed for (source, template class): the class name, a NUL, then the source (after the D-15d fix) -/
 def keyBytes (cls body : List Nat) : List Nat := cls ++ 0 :: body
 
+/-- … for a template that has a file name: the name goes in between, NUL-terminated too (it is compiled into the module —
+error reports show it — and the module's own name has it without the extension only; after the D-15e fix) -/
+def keyBytesFile (cls fn body : List Nat) : List Nat := cls ++ 0 :: (fn ++ 0 :: body)
+
 /-- the layout before the fix: the source directly followed by the class name -/
 def keyBytesOld (cls body : List Nat) : List Nat := body ++ cls
 
